@@ -167,6 +167,15 @@ def same(a, b):
 
 
 # ----------------------------------------------------------------- helpers
+import re as _re
+_NEG_ZERO = _re.compile(r"(?<![\w.])-0\.0(?![\d])")
+
+
+def norm_zero_text(s):
+    """printed expressions with a captured zero literal: '-0.0' and '0.0' are the same value (see same())"""
+    return _NEG_ZERO.sub("0.0", s) if isinstance(s, str) else s
+
+
 def loc(label, *steps):
     return ["loc", label, [list(s) for s in steps]]
 
